@@ -20,6 +20,7 @@ package coresim
 //   c18_poke                                   the master repeats the latest status of the task whose KILL is held
 //   c18_waitreconcile {timeout_ms}             wait for a RECONCILE call after the last mark / wait
 //   c18_waitdead {timeout_ms}                  wait until the master has no non-terminal task
+//   c18_waitorphans {timeout_ms}               wait until the master has no non-terminal task outside the core's roster
 //   c18_ungate_keep {point}                    a gated hook point lets later arrivals pass, who is parked there stays
 //   c18_delfid                                 delete the stored framework id (fresh installation)
 //
@@ -37,6 +38,8 @@ import (
 	"time"
 
 	"github.com/AliceO2Group/Control/core/controlcommands"
+	pb "github.com/AliceO2Group/Control/core/protos"
+	mesos "github.com/mesos/mesos-go/api/v1/lib"
 	"github.com/mesos/mesos-go/api/v1/lib/scheduler"
 )
 
@@ -109,6 +112,23 @@ func c18TargetsDead(m *Master, call *scheduler.Call) bool {
 	return true
 }
 
+// c18ExplicitReconcile: the latest state of the listed non-terminal tasks of the framework.
+func c18ExplicitReconcile(m *Master, fw string, ids map[string]bool) {
+	m.mu.Lock()
+	ts := []*SimTask{}
+	for _, id := range m.taskSeq {
+		if t := m.tasks[id]; ids[id] && t.Framework == fw && !t.Terminal {
+			c := *t
+			ts = append(ts, &c)
+		}
+	}
+	m.mu.Unlock()
+	reason := mesos.REASON_RECONCILIATION
+	for _, t := range ts {
+		m.update(fw, t, t.Mesos, &reason, "Reconciliation: Latest task state")
+	}
+}
+
 // arrive parks the caller when the point is gated; returns the verdict ("pass" when not gated).
 func (s *c18State) arrive(r *Runner, point string, every bool, kv ...interface{}) string {
 	s.mu.Lock()
@@ -158,6 +178,21 @@ func (s *c18State) install(r *Runner) {
 			// held here, the master has not answered yet: a stream dropped now loses the whole answer
 			if s.arrive(r, "RECONCILE", false) == "drop" {
 				return http.StatusServiceUnavailable
+			}
+			if call.Reconcile != nil && len(call.Reconcile.Tasks) > 0 {
+				// explicit reconciliation: Mesos answers for the listed tasks only (the shared master code answers every
+				// RECONCILE as an implicit one); the call is answered here: 202 as for any accepted call
+				ids := map[string]bool{}
+				for _, t := range call.Reconcile.Tasks {
+					ids[t.TaskID.Value] = true
+				}
+				fw := ""
+				if call.FrameworkID != nil {
+					fw = call.FrameworkID.Value
+				}
+				r.Emit("MReconcile", "fw", fw, "explicit", len(ids))
+				go c18ExplicitReconcile(r.Master, fw, ids)
+				return http.StatusAccepted
 			}
 			return 0
 		}
@@ -374,6 +409,37 @@ func init() {
 	ExtraSteps["c18_ungate_keep"] = func(r *Runner, st *Step, ctx context.Context) {
 		r.Sched.Ungate(st.Point)
 		r.Emit("GateKept", "point", st.Point, "parked", r.Sched.NParked(st.Point))
+	}
+	// c18_waitorphans: wait until every task the master has alive is in the core's roster (GetTasks), or the deadline:
+	// what is left is alive and unknown to the core
+	ExtraSteps["c18_waitorphans"] = func(r *Runner, st *Step, _ context.Context) {
+		deadline := time.Now().Add(c18Timeout(st, 3*time.Second))
+		orphans := []string{}
+		ok := false
+		for {
+			cctx, cancel := context.WithTimeout(context.Background(), 5*time.Second) // (not the step's: it ends at the deadline)
+			rep, err := r.Client.GetTasks(cctx, &pb.GetTasksRequest{})
+			cancel()
+			if err == nil {
+				ok = true
+				known := map[string]bool{}
+				for _, t := range rep.Tasks {
+					known[t.TaskId] = true
+				}
+				orphans = orphans[:0]
+				for _, t := range r.Master.Tasks() {
+					if !t.Terminal && !known[t.ID] {
+						orphans = append(orphans, r.TaskAlias(t.ID))
+					}
+				}
+			}
+			if (ok && len(orphans) == 0) || time.Now().After(deadline) {
+				break
+			}
+			time.Sleep(10 * time.Millisecond)
+		}
+		sort.Strings(orphans)
+		r.Emit("Orphans", "alive", append([]string{}, orphans...), "ok", ok)
 	}
 	ExtraSteps["c18_delfid"] = func(r *Runner, st *Step, ctx context.Context) {
 		req, _ := http.NewRequestWithContext(ctx, http.MethodDelete, "http://"+r.Consul.Addr()+"/v1/kv/"+c18FidKey, nil)
